@@ -36,11 +36,12 @@ OPEN_STATEMENTS = [
     'hypothesis: the result equals the tolerance-0 result)',
     'hopping shortcut: proved for one shared mode, no shared mode and both modes shared (hopping_shortcut_*), for '
     'hopping operators t (i^ j + j^ i) as in the docstrings',
-    'dc_commutator_sound (diagonal-Coulomb commutator = generic commutator): the one-body / one-body helper is '
-    'proved for every index pattern and the whole routine is proved for one-body operators '
-    '(dc_one_body_one_body_sound, dc_commutator_one_body_sound); open: the one-body / two-body and two-body / '
-    'two-body helpers, the three-body insertion and the sum over term pairs (Corr + oracle: exhaustive over all '
-    'admissible term pairs on 4 modes, random multi-term operators on 5 modes)',
+    'dc_commutator_sound (diagonal-Coulomb commutator = generic commutator) is proved as one statement under the '
+    'documented contract (operator_a: identity / i^ j / normal-ordered i^ j^ i j; operator_b: identity / one-body / '
+    'normal-ordered two-body), for every tolerance, in every ring with the CAR and on the Fock space '
+    '(dc_commutator_sound_ring, dc_commutator_sound; helpers dc_one_body_one_body_sound_ring, '
+    'dc_one_body_two_body_sound, dc_two_body_two_body_sound, dc_three_body_insertion_sound); open: the out-of-spec '
+    'fallback branch (operands outside the contract; Corr + oracle on random out-of-spec operators)',
     'trivially_double_commutes_dual_basis soundness holds only outside finding F07 (tdc_dual_sound_partial); '
     'trivially_double_commutes_dual_basis_using_term_info: oracle only (all index-set / flag configurations on 4 modes)',
     'bch_expand: exactness proved by kernel computation for orders <= 6 only (no general-order Dynkin '
@@ -696,7 +697,8 @@ def stream_dc(ctx):
         commutator_ordered_diagonal_coulomb_with_two_body_operator as dcc)
     st = Stream('diagonal-coulomb-commutator', 'all pairs (term of a diagonal-Coulomb operator, normal-ordered two-body '
                 'term) on 4 modes (22 x 52 = 1144), random multi-term operators on 5 modes with and without prior_terms '
-                'and constants; implementation = Model exactly (stored zeros included); oracle: result denotes '
+                'and constants, out-of-spec operator_a terms (non-diagonal two-body, three-body, odd length) that reach the '
+                'fallback branch; implementation = Model exactly (stored zeros included); oracle: result denotes '
                 'prior + [A,B] on all Fock states; distinct = distinct (A, B, prior)')
     B = Batch(ctx, st)
     rng = rng_for(ctx.seed, 'c07-dc')
@@ -752,6 +754,33 @@ def stream_dc(ctx):
                 prior += F(t, dyadic(rng, max_num=3, max_pow=1))
         st.count('random:prior=%s' % (prior is not None))
         run_case(A, Bo, prior)
+    # out-of-spec operands that reach the fallback branch (generic commutator + normal_ordered): operator_a with
+    # non-diagonal two-body, three-body and odd-length normal-ordered terms; the function must still return
+    # prior + [A, B]
+    two_general = [t for t in B5 if len(t) == 4 and not (t[0][0] == t[2][0] and t[1][0] == t[3][0])]
+    trip = [(i, j, k) for i in range(5) for j in range(i) for k in range(j)]
+    three = [((a[0], 1), (a[1], 1), (a[2], 1), (b[0], 0), (b[1], 0), (b[2], 0)) for a in trip for b in trip]
+    odd = [((i, 1), (j, 1), (k, 0)) for i in range(5) for j in range(i) for k in range(5)]
+    for _ in range(budget(ctx.tier, 40, 500)):
+        A = F()
+        A += F(rng.choice(two_general if rng.random() < 0.6 else (three if rng.random() < 0.5 else odd)),
+               dyadic(rng, max_num=3, max_pow=1))
+        for t in rng.sample(A5, rng.randint(0, 2)):
+            A += F(t, dyadic(rng, max_num=3, max_pow=1))
+        Bo = F()
+        for t in rng.sample(B5, rng.randint(1, 3)):
+            Bo += F(t, dyadic(rng, max_num=3, max_pow=1))
+        if rng.random() < 0.3:
+            Bo += F(rng.choice(three), dyadic(rng, max_num=3, max_pow=1))
+        prior = None
+        if rng.random() < 0.4:
+            prior = F()
+            for t in rng.sample(B5, rng.randint(0, 3)):
+                prior += F(t, dyadic(rng, max_num=3, max_pow=1))
+        st.count('out-of-spec:prior=%s' % (prior is not None))
+        with warnings.catch_warnings():
+            warnings.simplefilter('ignore')
+            run_case(A, Bo, prior)
     B.flush()
     return st
 
